@@ -563,16 +563,24 @@ func c02Exec(ctx *vk.Ctx, c c02Case) error {
 	}
 	ctx.Note("fail-index", failIdx)
 	nt := anteA && failIdx >= 1
+	// With a small Block.MaxGas the chain's dynamic gas price follows the gas
+	// used by each block; T and its no-op twin use different amounts, so the
+	// price record (and with it the app hash) legitimately differs.
+	var ignore func(store string, key []byte) bool
+	if c.Cause == c02BlockGas {
+		ignore = func(store string, key []byte) bool { return store == "main" && string(key) == "gasPrice" }
+	}
 	// --- state after T's block
-	if d := ec.Diff(a.dumpT, b.dumpT, nil); d != "" {
+	if d := ec.Diff(a.dumpT, b.dumpT, ignore); d != "" {
 		if blockOOG && ctx.Known("block-gas-overflow-after-msgs") {
 			ctx.Class("known:block-gas-overflow-after-msgs")
+			ctx.ClassIf(nt, "nontrivial:"+c.Cause)
 			ctx.NTIf(nt)
 			return nil // the chains have legitimately diverged; nothing more to compare
 		}
 		return fmt.Errorf("T was reported failed (%s: %.300q) yet the committed state differs from the only-ante-effects twin:\n%s", axErrType(a.t), a.t.Log, d)
 	}
-	if a.hashT != b.hashT {
+	if a.hashT != b.hashT && ignore == nil {
 		return fmt.Errorf("T was reported failed; equal logical state but app hash differs from the twin: %s vs %s", a.hashT, b.hashT)
 	}
 	for i := range a.after {
@@ -607,10 +615,10 @@ func c02Exec(ctx *vk.Ctx, c c02Case) error {
 	if err != nil {
 		return err
 	}
-	if d := ec.Diff(da, db, nil); d != "" {
+	if d := ec.Diff(da, db, ignore); d != "" {
 		return fmt.Errorf("state after the follow-up block differs from the twin chain:\n%s", d)
 	}
-	if ha, hb := a.env.Hashes[len(a.env.Hashes)-1], b.env.Hashes[len(b.env.Hashes)-1]; ha != hb {
+	if ha, hb := a.env.Hashes[len(a.env.Hashes)-1], b.env.Hashes[len(b.env.Hashes)-1]; ha != hb && ignore == nil {
 		return fmt.Errorf("app hash after the follow-up block differs from the twin chain: %s vs %s", ha, hb)
 	}
 	if qa, qb := c02QueryAll(a.env), c02QueryAll(b.env); qa != qb {
